@@ -55,6 +55,12 @@ pub struct MuxPlan {
     pub h2_clients: Vec<H2ClientPlan>,
     pub sndbufs: Option<Vec<i32>>,
     pub settle_ns: u64,
+    /// send SoftStop this long after the configuration was acknowledged (clients start at "configured")
+    #[serde(default)]
+    pub soft_stop_at_ns: Option<u64>,
+    /// `h2_graceful_shutdown_deadline_seconds` of the HTTPS listener (None = leave unset)
+    #[serde(default)]
+    pub h2_deadline_secs: Option<u32>,
 }
 
 #[derive(Clone, Debug)]
@@ -80,6 +86,10 @@ pub struct MuxOutcome {
     pub max_served: usize,
     pub leak_accepted: i64,
     pub leak_connected: i64,
+    /// (virtual time, status) of the final answer to SoftStop, if one was sent and answered
+    pub softstop_final: Option<(u64, i32)>,
+    pub softstop_sent_t: u64,
+    pub master_eof: bool,
 }
 
 pub fn config_requests(p: &MuxPlan) -> Vec<Request> {
@@ -91,6 +101,7 @@ pub fn config_requests(p: &MuxPlan) -> Vec<Request> {
     v.push(RequestType::AddHttpListener(lb.to_http(None).unwrap()).into());
     let mut lt = ListenerBuilder::new_https(p.https_front.into());
     lt.with_front_timeout(Some(p.knobs.front_timeout)).with_back_timeout(Some(p.knobs.back_timeout)).with_connect_timeout(Some(p.knobs.connect_timeout)).with_request_timeout(Some(p.knobs.request_timeout));
+    if p.h2_deadline_secs.is_some() { lt.h2_graceful_shutdown_deadline_seconds = p.h2_deadline_secs; }
     v.push(RequestType::AddHttpsListener(lt.to_tls(None).unwrap()).into());
     // the fixture certificate is CN=lolcatho.st; the names override makes it cover the plan's hosts
     let names: Vec<String> = p.clusters.iter().map(|c| c.host.clone()).chain(std::iter::once("nohost.test".to_string())).collect();
@@ -114,6 +125,7 @@ pub fn run_mux(plan: &MuxPlan, log: bool) -> MuxOutcome {
         World::install(&mut w);
         w.log_on = log;
         w.sndbuf_choices = plan.sndbufs.clone();
+        if plan.soft_stop_at_ns.is_some() { w.post_exit_drain_ns = 30 * crate::world::SEC; }
         let reqs = config_requests(&plan);
         let nclients = (plan.h1_clients.len() + plan.h2_clients.len()) as i64;
         let settle = plan.settle_ns;
@@ -124,6 +136,15 @@ pub fn run_mux(plan: &MuxPlan, log: bool) -> MuxOutcome {
             m.send_all(reqs);
             m.push(MOp::Barrier);
             m.push(MOp::SetBoard("configured".into(), 1));
+            if let Some(t) = plan.soft_stop_at_ns {
+                // soft stop while clients are active: the worker answers once its sessions are over and then
+                // leaves its loop by itself; the peers then drain what is left in their socket buffers
+                m.push(MOp::Sleep(t));
+                m.push(MOp::Call(Box::new(|w, _| { let now = w.now as i64; w.board_set("softstop_sent_t", now); vec![] })));
+                m.push(MOp::SoftStop);
+                m.push(MOp::BarrierFor(600 * crate::world::SEC));
+                m.push(MOp::End);
+            }
             m.push(MOp::WaitBoard("clients_done".into(), nclients));
             if settle > 0 {
                 m.push(MOp::Sleep(settle));
@@ -161,6 +182,10 @@ pub fn run_mux(plan: &MuxPlan, log: bool) -> MuxOutcome {
             for (_, r) in &m.data.responses {
                 if r.status == sozu_command_lib::proto::command::ResponseStatus::Failure as i32 { out.config_failures.push(format!("{}: {}", r.id, r.message)); }
             }
+            if let Some((id, _, _)) = m.data.sent.iter().find(|(_, r, _)| matches!(r.request_type, Some(RequestType::SoftStop(_)))) {
+                out.softstop_final = m.data.responses.iter().find(|(_, r)| r.id == *id && r.status != sozu_command_lib::proto::command::ResponseStatus::Processing as i32).map(|(t, r)| (*t, r.status));
+            }
+            out.master_eof = m.data.eof;
         }
         for id in &h1_ids { let c: &H1Client = w.actor_ref(*id); out.h1_clients.push(ClientOutcome { rec: c.rec.clone(), responses: c.responses().clone(), partial: c.partial().cloned(), interim: c.parser.interim }); }
         for id in &h2_ids { let c: &H2Client = w.actor_ref(*id); out.h2_clients.push(c.record()); }
@@ -175,6 +200,7 @@ pub fn run_mux(plan: &MuxPlan, log: bool) -> MuxOutcome {
         out.max_served = w.max_served;
         out.leak_accepted = w.board_get("leak_accepted");
         out.leak_connected = w.board_get("leak_connected");
+        out.softstop_sent_t = w.board_get("softstop_sent_t") as u64;
         out.log = std::mem::take(&mut w.log);
         out
     })
